@@ -1,7 +1,14 @@
 From Coq Require Import Extraction ExtrOcamlBasic.
 From BV Require Import lib.ExtractBase lib.Ints model.CryptoBase model.CryptoMD model.CryptoSHA256
-  model.CryptoSHA1 model.CryptoSHA512 model.CryptoRIPEMD160 model.CryptoHMAC model.CryptoHMACInst.
+  model.CryptoSHA1 model.CryptoSHA512 model.CryptoRIPEMD160 model.CryptoHMAC model.CryptoHMACInst
+  model.CryptoChaCha model.CryptoPoly1305 model.CryptoAEAD model.CryptoSipHash model.CryptoSHA3.
 Extraction "model.ml" extract_base zeros
   sha256_spec csha256_stream sha256d64_spec
   sha1_spec csha1_stream sha512_spec csha512_stream ripemd160_spec cripemd160_stream
-  hmac_sha256_spec hmac_sha512_spec hkdf_sha256_spec chmac_sha256_stream chmac_sha512_stream chkdf_sha256_l32.
+  hmac_sha256_spec hmac_sha512_spec hkdf_sha256_spec chmac_sha256_stream chmac_sha512_stream chkdf_sha256_l32
+  chacha20_encrypt chacha20_new chacha20_seek cc_run_ops bip324_nonce fschacha20_new fschacha20_crypt_seq
+  poly1305_spec poly1305_stream
+  aead_encrypt_spec aead_decrypt_spec aead_encrypt aead_decrypt fsaead_new fsaead_encrypt_seq fsaead_encrypt fsaead_decrypt
+  bip324_packet_spec
+  siphash24_spec csiphasher_stream csiphasher_run presalted_siphash_u256 presalted_siphash_u256_extra
+  siphash13uj_spec uj_stream sha3_256_spec sha3_stream keccak_f keccakf_cpp.
